@@ -19,7 +19,12 @@ RULE = ('Generated <rpc-reply> documents (random binding of the base namespace, 
         'issued, replies dispatched in any order, a stray second message repeating an answered id, the caller writing rpc.huge_tree; rpc.reply '
         'views read in random order, once or twice. Expected flag of a call = Manager flag when the call was made or forced by the operation, '
         'then the caller\'s own writes before delivery. Both tiers: 11 MB text / depth-300 replies delivered after request() returned for every '
-        'flag-forcing operation and for plain operations whose Manager flag changes before the reply comes.')
+        'flag-forcing operation and for plain operations whose Manager flag changes before the reply comes. '
+        'Repeats (round 7): 3-6 calls of the SAME operation with the same 1-2 reply texts on ONE Manager / ONE device handler (any mix of the three '
+        'modes, now and then another operation in between), for every path on which a profile does something to the reply: Junos get-schema with <data> '
+        'in the base namespace / in no namespace / in the monitoring namespace, get/get-config/rpc/vendor operations through the junos, alu and sros reply '
+        'transforms, the flag-forcing operations, 11 MB / depth-300 replies 2-4 times in a row. Besides the per-call oracle: everything the caller sees '
+        'of the k-th result (message-id normalised) equals what it saw of the first call with the same operation, reply text and settings.')
 ASSUMES = ['libxml2 parsing, libxslt execution and libxml2 resource limits are oracles (the XSLT is modelled by hand as three templates)',
            'the remove_blank_text parsers drop only white-space-only text nodes (checked on every Junos case); which of them are dropped is libxml2 heuristics and is not modelled',
            'parse_root (iterparse, first start event) in Session._dispatch_message takes no huge_tree flag; it stops at the root start tag and is not counted as a full-document parse site']
@@ -89,7 +94,7 @@ def build_reply(case, mid):
         if kind == 'text': inner = '<big>' + 'x' * n + '</big>'
         else: inner = '<d>' * n + 'deep' + '</d>' * n
         errs = ''.join('<rpc-error><error-severity>error</error-severity><error-message>e%d</error-message></rpc-error>' % i for i in range(case.get('errors', 0)))
-        dn = ('<data xmlns="%s">' % NCM) if case['op'] == 'get_schema' else '<data>'
+        dn = ('<data xmlns="%s">' % case.get('data_ns', NCM)) if case['op'] == 'get_schema' and case.get('data_ns', NCM) != BASE else '<data>'
         if kind == 'text' and case['op'] == 'get_schema': return '<rpc-reply xmlns="%s" message-id="%s">%s%s%s</data></rpc-reply>' % (BASE, mid, errs, dn, 'x' * n)
         return '<rpc-reply xmlns="%s" message-id="%s" xmlns:a="urn:a">%s%s<a:top k="v">%s</a:top></data></rpc-reply>' % (BASE, mid, errs, dn, inner)
     return case['reply'].replace('MSGID', mid)
@@ -264,6 +269,29 @@ def judge(r, case, prof, op, flag, rmode, raw, out, res, sites, mreq, mode='sync
 #   the 'deliver'/'stray' steps that directly follow a synchronous call up to its own delivery happen while that call waits.
 READS = ['xml', 'ok', 'data', 'errors']
 
+def observe(out, res, op, mid):
+    """everything the caller can see of one result, message-id normalised: the k-th answer to the same question must equal the first"""
+    def n(x): return x.replace(mid, 'MSGID') if isinstance(x, str) and mid else x
+    def view(f):
+        try: return f()
+        except Exception as ex: return 'raises ' + type(ex).__name__
+    if out == 'reply':
+        o = ['reply', type(res).__name__, n(res.xml), view(lambda: bool(res.ok)), view(lambda: [n(str(e.message)) for e in res.errors])]
+        cls = CCODE[op]
+        if cls == 1:
+            o.append(view(lambda: None if res.data_ele is None else X.canon(X.lx_resolved(res.data_ele))))
+            o.append(view(lambda: n(res.data_xml)))
+        elif cls == 2: o.append(view(lambda: res.data))
+        return o
+    if out == 'elem': return ['elem', view(lambda: n(res.data_xml)), view(lambda: len(res.xpath('//*')))]
+    if out == 'raised': return ['raised', type(res).__name__, n(str(res))]
+    return [out, type(res).__name__]
+
+def short(o):
+    if isinstance(o, (str, bytes)): return o if len(o) <= 400 else o[:400] + type(o)(b'...' if isinstance(o, bytes) else '...')
+    if isinstance(o, (list, tuple)): return [short(x) for x in o]
+    return o
+
 def _evaluate_hist(case, r):
     import threading
     from ncclient import operations
@@ -296,6 +324,20 @@ def _evaluate_hist(case, r):
     mgr_huge = case['huge0']
     RM = [operations.RaiseMode.NONE, operations.RaiseMode.ERRORS, operations.RaiseMode.ALL]
     results = {}
+    firsts = {}                             # (operation, reply text, flag, raise mode, sync/async) -> [first such call, what its caller saw, count]
+    def same_as_first(k, out, res, kind):
+        # nothing a profile does to a reply (repair of the parsing hook, reply transform, per-call huge-tree support) depends on how
+        # many replies this Manager / device handler has served before: equal questions, equal reply text => equal results
+        c = calls[k]
+        key = json.dumps([c['op'], c.get('reply'), c.get('big'), c.get('data_ns'), c.get('errors'), bool(st[k]['flag']),
+                          c.get('raise_mode', 0) if kind == 'sync' else 0, kind])
+        obs = observe(out, res, c['op'], st[k]['mid'])
+        if key not in firsts:
+            firsts[key] = [k, obs, 1]; return
+        f = firsts[key]; f[2] += 1
+        if obs != f[1]:
+            r.fail('call %d (%s %s, repeat %d): the result differs from that of call %d - the same operation answered with the same reply text under '
+                   'the same settings earlier on this Manager' % (k, c['mode'], c['op'], f[2], f[0]), expected=short(f[1]), actual=short(obs))
     with F.ParseSites() as ps:
         i = 0
         while i < len(steps):
@@ -351,6 +393,7 @@ def _evaluate_hist(case, r):
                 def mreq(rk, exp, evs=evs, k=k): return [11, int(case['huge0']), 0, evs, k + 1, PCODE[prof], rk, exp]
                 results[k] = (out, res)
                 judge(r, c, prof, op, st[k]['flag'], c.get('raise_mode', 0), st[k]['raw'], out, res, sites, mreq, mode=mode, tag='call %d (%s %s): ' % (k, mode, op))
+                same_as_first(k, out, res, 'sync')
             elif kind in ('deliver', 'stray'):
                 k = step[1]
                 if st[k]['mid'] is None:
@@ -389,6 +432,7 @@ def _evaluate_hist(case, r):
                 judge(jr, c, prof, c['op'], flag, 0, st[k]['raw'], out, res, sites, mreq, mode='async',
                       tag='call %d (async %s, read %d): ' % (k, c['op'], st[k]['n_read']))
                 if jr is not r: r.fails.extend(jr.fails)
+                if first_read: same_as_first(k, out, res, 'async')
                 st[k]['seen'] = (type(reply).__name__, reply.xml, sites[0][1] if sites else st[k].get('seen', (0, 0, None))[2])
             else:
                 r.fail('harness: unknown step %r' % (step,)); return
@@ -427,18 +471,21 @@ def _evaluate_hist(case, r):
     if True:
         r.mcalls.append(([9, int(case['huge0']), 0, events], impl, 'history: RPC objects and their replies at the end', post))
     r.hist['hist calls'] = len(order)
+    r.hist['same call repeated on one Manager'] = max([f[2] for f in firsts.values()] or [0])
     r.hist['hist modes'] = '+'.join(sorted(set(c['mode'] for c in calls)))
 
 
-def gen_hist(rng, g, prof, ncalls=None):
+def gen_hist(rng, g, prof, ncalls=None, pick=None, modes=None, raise_modes=None):
     ncalls = ncalls or rng.choice([1, 2, 2, 3, 3, 4])
     calls, steps = [], []
     issued, pending, unread, asyncs, answered = 0, [], [], [], []
     def new_call():
-        op = rng.choice(OPS[prof])
-        try: reply, exp = gen_reply(rng, g, op)
-        except Exception: reply, exp = R('<data/>'), None
-        c = {'op': op, 'mode': rng.choice(['async', 'async', 'async', 'sync', 'syncthread']), 'raise_mode': rng.choice([0, 0, 2]),
+        if pick is not None: op, reply, exp = pick()
+        else:
+            op = rng.choice(OPS[prof])
+            try: reply, exp = gen_reply(rng, g, op)
+            except Exception: reply, exp = R('<data/>'), None
+        c = {'op': op, 'mode': rng.choice(modes or ['async', 'async', 'async', 'sync', 'syncthread']), 'raise_mode': rng.choice(raise_modes or [0, 0, 2]),
              'reply': reply, 'expected': exp, 'query': rng.randint(0, 50)}
         calls.append(c); return len(calls) - 1
     def deliver(k):
@@ -479,6 +526,37 @@ def hist_cases(rng, tier):
     g = X.DocGen(rng, max_depth=3, max_kids=3, same_local_attrs=0.04)
     return [gen_hist(rng, g, prof) for _ in range(n) for prof in PROFILES]
 
+# repeats (round 7): the SAME operation several times on ONE Manager / ONE device handler, for every path on which the profile does something to
+# the reply: the Junos get-schema repair (<data> in the base namespace / in no namespace), the reply transforms (junos XSLT, alu, sros), the
+# operations that enable huge-tree support for their own call.  (operation, namespace of the get-schema <data>)
+REPEAT_PATHS = {
+    'default': [('get_schema', NCM), ('get', None), ('get_config', None), ('dispatch', None)],
+    'junos': [('get_schema', BASE), ('get_schema', ''), ('get_schema', NCM), ('get', None), ('get_config', None), ('rpc', None),
+              ('get_configuration', None), ('get_configuration_text', None)],
+    'alu': [('get_schema', NCM), ('get', None), ('get_config', None), ('dispatch', None)],
+    'sros': [('get_schema', NCM), ('get', None), ('get_config', None), ('dispatch', None), ('md_cli_raw_command', None)],
+}
+
+def gen_repeat_hist(rng, g, prof, path):
+    op, ns = path
+    def doc(o, ns_=None):
+        for _ in range(5):
+            try: return (o,) + gen_reply(rng, g, o, schema_ns=ns_)
+            except Exception: continue
+        return (o, R('<data/>'), None)
+    docs = [doc(op, ns) for _ in range(rng.choice([1, 1, 2]))]
+    def pick():
+        if rng.random() < 0.12: return doc(rng.choice(OPS[prof]))           # something else in between
+        return rng.choice(docs)
+    modes = rng.choice([None, None, ['async'], ['sync'], ['syncthread'], ['sync', 'syncthread']])
+    rms = rng.choice([None, [0], [0], [2]])
+    return gen_hist(rng, g, prof, ncalls=rng.choice([3, 3, 4, 5, 6]), pick=pick, modes=modes, raise_modes=rms)
+
+def repeat_hist_cases(rng, tier):
+    n = 10 if tier == 'quick' else 100
+    g = X.DocGen(rng, max_depth=3, max_kids=3, same_local_attrs=0.04)
+    return [gen_repeat_hist(rng, g, prof, path) for _ in range(n) for prof in PROFILES for path in REPEAT_PATHS[prof]]
+
 def big_hist_cases(tier):
     """replies at libxml2's limits delivered after request() returned / while the caller waits: every operation that enables huge-tree
     support by itself, and plain operations under a Manager setting that changes before the reply comes"""
@@ -504,6 +582,26 @@ def big_hist_cases(tier):
         out.append(h(prof, False, 'get', 'async', T, pre=[['mgr_huge', True]], mid=[['mgr_huge', False]], extra='get_schema'))
         out.append(h(prof, False, 'get', 'async', D, mid=[['mgr_huge', True]]))                 # not enabled for this call: libxml2 may refuse
         out.append(h(prof, False, 'get_config', 'async', T, mid=[['rpc_huge', 0, True]]))        # the caller enables it on the object
+    # the same reply at libxml2's limits several times on one Manager: huge-tree support forced by the operation / enabled on the Manager,
+    # and the Junos get-schema repair, serve every call and not only the first
+    def again(prof, huge0, op, modes, big, **kw):
+        calls = [dict({'op': op, 'mode': md, 'raise_mode': 0, 'big': big}, **kw) for md in modes]
+        steps = []
+        for k, md in enumerate(modes): steps += [['call', k], ['deliver', k]] + ([['read', k, [2, 0]]] if md == 'async' else [])
+        return {'kind': 'hist', 'profile': prof, 'huge0': huge0, 'calls': calls, 'steps': steps}
+    out.append(again('junos', False, 'get_schema', ['sync', 'async', 'sync'], T, data_ns=BASE))
+    out.append(again('junos', False, 'get_schema', ['async', 'async', 'syncthread'], T, data_ns=''))
+    out.append(again('junos', False, 'get_configuration_text', ['sync', 'sync'], T))
+    out.append(again('sros', False, 'md_cli_raw_command', ['sync', 'async'], T))
+    out.append(again('default', False, 'get_schema', ['sync', 'sync', 'async'], T))
+    out.append(again('junos', True, 'get', ['sync', 'sync', 'sync'], D))
+    out.append(again('alu', True, 'get', ['sync', 'sync'], T))
+    if tier == 'thorough':
+        for prof, op in forced:
+            for big in (T, D): out.append(again(prof, False, op, ['sync', 'async', 'syncthread', 'sync'], big))
+        for prof in PROFILES:
+            for big in (T, D): out.append(again(prof, True, OPS[prof][3], ['sync', 'async', 'sync'], big))
+        out.append(again('junos', False, 'get_schema', ['sync', 'sync', 'sync'], D, data_ns=BASE))
     return out
 
 
@@ -522,7 +620,7 @@ def scope_of(sd):
     for p, u in sd['decls']: sc[p] = u
     return sc
 
-def gen_reply(rng, g, op):
+def gen_reply(rng, g, op, schema_ns=None):
     sd, exp = g.element(None, 1, local='rpc-reply', force_ns=BASE)
     sd['attrs'] = [a for a in sd['attrs'] if a[1] != 'message-id']
     exp[2] = [a for a in exp[2] if not (a[0] == [[], b'message-id'])]
@@ -537,7 +635,7 @@ def gen_reply(rng, g, op):
     r = rng.random()
     if op == 'get_schema':
         variants = [NCM] * 14 + [BASE, '']
-        ns = rng.choice(variants)
+        ns = rng.choice(variants) if schema_ns is None else schema_ns
         dsd, dx = g.element(sc, g.max_depth, local='data', force_ns=ns)   # leaf: no element children
         body = rng.choice(['module m { }', 'module <m> & "q" {\n\tleaf x;\r\n}', X.gen_text(rng, 8, 0.05), ''])
         if body:
@@ -627,6 +725,15 @@ PINNED_HIST = [
     # a second message repeating an answered id does not replace the reply
     H('sros', False, [C('md_cli_raw_command', 'async', '<results xmlns="urn:s">one</results>'), C('get', 'async', '<data>two</data>')],
       [['call', 0], ['call', 1], ['deliver', 0], ['stray', 0, 1], ['deliver', 1], ['read', 0, [0, 1]], ['read', 1, [2]]]),
+    # the same question several times on one Manager / one device handler (round 7): Junos get-schema answered in the base namespace and in
+    # no namespace (the profile's repair serves every reply), replies through each profile's transform
+    H('junos', False, [C('get_schema', 'sync', '<data>module j { }</data>')] * 3, [['call', 0], ['deliver', 0], ['call', 1], ['deliver', 1], ['call', 2], ['deliver', 2]]),
+    H('junos', False, [C('get_schema', 'async', '<data xmlns="">module &lt;j&gt; { }</data>'), C('get', 'sync', '<data><a xmlns="urn:a" k="v">t</a></data>'),
+                       C('get_schema', 'async', '<data xmlns="">module &lt;j&gt; { }</data>'), C('get', 'sync', '<data><a xmlns="urn:a" k="v">t</a></data>'),
+                       C('get_schema', 'syncthread', '<data xmlns="">module &lt;j&gt; { }</data>')],
+      [['call', 0], ['call', 1], ['deliver', 1], ['deliver', 0], ['read', 0, [2]], ['call', 2], ['deliver', 2], ['read', 2, [2, 0]], ['call', 3], ['deliver', 3], ['call', 4], ['deliver', 4]]),
+    H('alu', False, [C('get', 'sync', '<data xmlns:p="urn:p"><p:a p:k="v"><b xmlns="urn:b"/>x</p:a></data>')] * 3, [['call', 0], ['deliver', 0], ['call', 1], ['deliver', 1], ['call', 2], ['deliver', 2]]),
+    H('sros', True, [C('md_cli_raw_command', 'sync', '<results xmlns="urn:s"><l>1</l> </results>')] * 3, [['call', 0], ['deliver', 0], ['call', 1], ['deliver', 1], ['call', 2], ['deliver', 2]]),
     # the caller switches huge-tree support on the asynchronous object itself
     H('alu', False, [C('get_config', 'async', '<data><c/></data>')], [['call', 0], ['rpc_huge', 0, True], ['deliver', 0], ['rpc_huge', 0, False], ['read', 0, [2]]]),
 ]
@@ -655,6 +762,7 @@ def run(ctx):
     cases += [json.loads(json.dumps(c)) for c in PINNED_HIST]
     cases += cases_for(ctx.rng, ctx.tier)
     cases += hist_cases(ctx.rng, ctx.tier)
+    cases += repeat_hist_cases(ctx.rng, ctx.tier)
     cases += big_hist_cases(ctx.tier)
     if ctx.tier == 'thorough': cases += big_cases()
     pending = []
@@ -693,7 +801,7 @@ def run(ctx):
 def search(ctx, seeds):
     import random
     rng = random.Random(ctx.seed + 1)
-    tries = list(seeds) + [json.loads(json.dumps(c)) for c in PINNED_HIST] + big_hist_cases('quick') + hist_cases(rng, 'quick') + [jsonable(c) for c in cases_for(rng, 'quick')]
+    tries = list(seeds) + [json.loads(json.dumps(c)) for c in PINNED_HIST] + big_hist_cases('quick') + repeat_hist_cases(rng, 'quick') + hist_cases(rng, 'quick') + [jsonable(c) for c in cases_for(rng, 'quick')]
     from vlib import findings
     for case in tries:
         r = evaluate(case)
